@@ -802,6 +802,7 @@ def component_both_mds(p):
 
 def create_metric_mds1(p):
     _need(p, CH_M1)
+    _need(p, NUM1)
     _need(p, 'new.m1', present=False)
     with p.mdib.descriptor_transaction() as tr:
         d = _mk_metric_descriptor(p, 'new.m1', CH_M1)
